@@ -9,6 +9,7 @@ package syncx
 import (
 	"errors"
 	"fmt"
+	"runtime"
 	"sync"
 	"sync/atomic"
 	"time"
@@ -377,125 +378,168 @@ func c18RunLock(m *vk.M, idx int, sc c18LockScn) bool {
 
 // ---------------------------------------------------------------- DoneChan / OnceGuard
 
+// Each history runs Rounds rounds on fresh objects; in every round all workers
+// leave a spinning barrier at (nearly) the same instant and hit the same object,
+// which is what the exactly-once windows (a few nanoseconds wide) need.
+
 type c18OnceScn struct {
 	Kind    string `json:"kind"` // done | guard
 	Procs   int    `json:"procs"`
 	Workers int    `json:"workers"`
-	Pre     []int  `json:"pre"`
+	Rounds  int    `json:"rounds"`
+	Pre     []int  `json:"pre"` // per worker: 0 none, 1 yield, 2 tiny spin after the barrier
 }
 
 func c18GenOnce(r interface{ Intn(int) int }) c18OnceScn {
-	sc := c18OnceScn{Kind: []string{"done", "guard"}[r.Intn(2)], Workers: 1 + r.Intn(8)}
-	if r.Intn(8) == 0 {
-		sc.Workers = 16 + r.Intn(49)
+	sc := c18OnceScn{Kind: []string{"done", "guard"}[r.Intn(2)], Workers: 2 + r.Intn(7), Rounds: 100 + r.Intn(200)}
+	if r.Intn(10) == 0 {
+		sc.Workers = 16 + r.Intn(17)
+		sc.Rounds = 40
 	}
 	for i := 0; i < sc.Workers; i++ {
-		sc.Pre = append(sc.Pre, c18RandDelay(r))
+		p := 0
+		if r.Intn(4) == 0 {
+			p = 1 + r.Intn(2)
+		}
+		sc.Pre = append(sc.Pre, p)
 	}
 	return sc
+}
+
+func c18SpinBarrier(cnt *int32, n int32) {
+	atomic.AddInt32(cnt, 1)
+	for i := 0; atomic.LoadInt32(cnt) < n; i++ {
+		if i%32 == 31 {
+			runtime.Gosched()
+		}
+	}
 }
 
 func c18RunOnce(m *vk.M, idx int, sc c18OnceScn) bool {
 	desc := fmt.Sprintf("case=%d;once;%s", idx, vk.JSON(sc))
 	m.Current(desc)
 	var wg sync.WaitGroup
-	start := make(chan struct{})
-	if sc.Kind == "guard" {
-		var og OnceGuard
-		if og.Taken() {
-			m.Violate("C18:onceguard:taken-before-take", desc, "Taken() is true on a fresh guard")
-			return true
+	W, R := int32(sc.Workers), sc.Rounds
+	arrive := make([]int32, R)
+	pre := func(w int) {
+		switch sc.Pre[w] {
+		case 1:
+			runtime.Gosched()
+		case 2:
+			for i := 0; i < 20; i++ {
+				atomic.AddInt64(&c18Sink, 1)
+			}
 		}
-		var wins, notTakenAfter int32
+	}
+	if sc.Kind == "guard" {
+		guards := make([]OnceGuard, R)
+		wins := make([]int32, R)
+		var notTakenAfter int32
+		for r := range guards {
+			if guards[r].Taken() {
+				m.Violate("C18:onceguard:taken-before-take", desc, "Taken() is true on a fresh guard")
+				return true
+			}
+		}
 		for w := 0; w < sc.Workers; w++ {
 			wg.Add(1)
 			go func(w int) {
 				defer wg.Done()
-				<-start
-				c18Delay(sc.Pre[w])
-				if og.Take() {
-					atomic.AddInt32(&wins, 1)
-				}
-				if !og.Taken() { // some Take has returned (ours): the guard must read taken
-					atomic.AddInt32(&notTakenAfter, 1)
+				for r := 0; r < R; r++ {
+					c18SpinBarrier(&arrive[r], W)
+					pre(w)
+					if guards[r].Take() {
+						atomic.AddInt32(&wins[r], 1)
+					}
+					if !guards[r].Taken() { // a Take (ours) has returned: the guard must read taken
+						atomic.AddInt32(&notTakenAfter, 1)
+					}
 				}
 			}(w)
 		}
-		close(start)
 		if !c18Join(&wg) {
 			m.Inconclusive("case %d (onceguard): workers did not finish", idx)
 			return false
 		}
-		if n := atomic.LoadInt32(&wins); n != 1 {
-			m.Violate("C18:onceguard:not-exactly-one-take", desc, "%d concurrent Take calls: %d returned true (want exactly 1)", sc.Workers, n)
-		} else if n := atomic.LoadInt32(&notTakenAfter); n != 0 {
+		bad := false
+		for r := range wins {
+			if n := atomic.LoadInt32(&wins[r]); n != 1 && !bad {
+				bad = true
+				m.Violate("C18:onceguard:not-exactly-one-take", desc, "round %d: %d concurrent Take calls on one guard: %d returned true (want exactly 1)", r, sc.Workers, n)
+			}
+		}
+		if n := atomic.LoadInt32(&notTakenAfter); n != 0 && !bad {
 			m.Violate("C18:onceguard:taken-false-after-take", desc, "Taken() returned false %d times after a Take had returned", n)
 		}
-		m.Count("onceguard_take", int64(sc.Workers))
-		m.Count("onceguard_take_true", int64(atomic.LoadInt32(&wins)))
-		m.Case(fmt.Sprintf("guard%d/%v", sc.Workers, sc.Pre), sc.Workers > 1)
+		m.Count("onceguard_take", int64(sc.Workers*R))
+		m.Count("onceguard_take_true", int64(R))
+		m.Case(fmt.Sprintf("guard%d/%d/%v", sc.Workers, R, sc.Pre), true)
 		return true
 	}
-	dc := NewDoneChan()
-	select {
-	case <-dc.Done():
-		m.Violate("C18:donechan:done-before-close", desc, "Done() is ready on a fresh DoneChan")
-		return true
-	default:
+	dcs := make([]*DoneChan, R)
+	for r := range dcs {
+		dcs[r] = NewDoneChan()
+		select {
+		case <-dcs[r].Done():
+			m.Violate("C18:donechan:done-before-close", desc, "Done() is ready on a fresh DoneChan")
+			return true
+		default:
+		}
 	}
 	var panics, notDone, woken int32
 	released := make(chan struct{})
-	// waiters block on Done() until the first Close
-	for w := 0; w < 2; w++ {
-		wg.Add(1)
-		go func() {
-			defer wg.Done()
+	// one waiter blocks on every Done() in turn until the round's first Close
+	var wwg sync.WaitGroup
+	wwg.Add(1)
+	go func() {
+		defer wwg.Done()
+		for r := 0; r < R; r++ {
 			select {
-			case <-dc.Done():
+			case <-dcs[r].Done():
 				atomic.AddInt32(&woken, 1)
 			case <-released: // harness gives up (watchdog path)
-			}
-		}()
-	}
-	var cg sync.WaitGroup
-	for w := 0; w < sc.Workers; w++ {
-		cg.Add(1)
-		go func(w int) {
-			defer cg.Done()
-			<-start
-			c18Delay(sc.Pre[w])
-			if _, p := vk.Recover(dc.Close); p {
-				atomic.AddInt32(&panics, 1)
 				return
 			}
-			select {
-			case <-dc.Done():
-			default:
-				atomic.AddInt32(&notDone, 1)
+		}
+	}()
+	for w := 0; w < sc.Workers; w++ {
+		wg.Add(1)
+		go func(w int) {
+			defer wg.Done()
+			for r := 0; r < R; r++ {
+				c18SpinBarrier(&arrive[r], W)
+				pre(w)
+				if _, p := vk.Recover(dcs[r].Close); p {
+					atomic.AddInt32(&panics, 1)
+					continue
+				}
+				select {
+				case <-dcs[r].Done():
+				default:
+					atomic.AddInt32(&notDone, 1)
+				}
 			}
 		}(w)
 	}
-	close(start)
-	if !c18Join(&cg) {
+	if !c18Join(&wg) {
 		close(released)
 		m.Inconclusive("case %d (donechan): closers did not finish", idx)
 		return false
 	}
 	switch {
 	case atomic.LoadInt32(&panics) != 0:
-		m.Violate("C18:donechan:close-panicked", desc, "%d of %d concurrent Close calls panicked", panics, sc.Workers)
+		m.Violate("C18:donechan:close-panicked", desc, "%d of %d concurrent Close calls (%d workers x %d rounds) panicked", atomic.LoadInt32(&panics), sc.Workers*R, sc.Workers, R)
 	case atomic.LoadInt32(&notDone) != 0:
-		m.Violate("C18:donechan:not-done-after-close", desc, "Done() was not ready after Close had returned (%d times)", notDone)
+		m.Violate("C18:donechan:not-done-after-close", desc, "Done() was not ready after Close had returned (%d times)", atomic.LoadInt32(&notDone))
 	}
-	ok := c18Join(&wg)
-	if !ok {
+	if !c18Join(&wwg) {
 		close(released)
-		m.Inconclusive("case %d (donechan): goroutines waiting on Done() were not released within %v after Close", idx, c18Watchdog)
+		m.Inconclusive("case %d (donechan): the goroutine waiting on Done() was not released within %v after Close", idx, c18Watchdog)
 		return false
 	}
-	m.Count("donechan_close", int64(sc.Workers))
-	m.Count("donechan_waiters_released", int64(atomic.LoadInt32(&woken)))
-	m.Case(fmt.Sprintf("done%d/%v", sc.Workers, sc.Pre), sc.Workers > 1)
+	m.Count("donechan_close", int64(sc.Workers*R))
+	m.Count("donechan_waiter_wakeups", int64(atomic.LoadInt32(&woken)))
+	m.Case(fmt.Sprintf("done%d/%d/%v", sc.Workers, R, sc.Pre), true)
 	return true
 }
 
